@@ -257,12 +257,15 @@ impl UnixTerminal {
         // disable signal handler
         self.signal_delivery.handle().close();
 
-        // restore terminal settings
-        rustix::termios::tcsetattr(
-            &self.tty,
-            rustix::termios::OptionalActions::Flush,
-            &self.termios_saved,
-        )?;
+        // restore terminal settings, the call waits for the output to drain
+        // and can be interrupted by a signal before anything is changed
+        rustix::io::retry_on_intr(|| {
+            rustix::termios::tcsetattr(
+                &self.tty,
+                rustix::termios::OptionalActions::Flush,
+                &self.termios_saved,
+            )
+        })?;
 
         Ok(())
     }
